@@ -155,7 +155,7 @@ func runC19(w *mon.W) {
 	cs := logGrid(1e-9, 1e-3, w.Pick(5, 10))
 	nas := logGrid(1e-3, 1, w.Pick(5, 10))
 	mgs := append([]float64{0}, logGrid(1e-4, 0.1, w.Pick(3, 5))...)
-	maxL := w.Pick(6, 8)
+	maxL := w.Pick(7, 8)
 	w.Extra("exhaustive_parts", []string{fmt.Sprintf("all A/C/G/T oligos of length 2..%d on a %dx%dx%d condition grid", maxL, len(cs), len(nas), len(mgs))})
 	w.Extra("grid", map[string]any{"oligo_M": cs, "sodium_M": nas, "magnesium_M": mgs})
 	idx := 0
@@ -179,7 +179,7 @@ func runC19(w *mon.W) {
 			w.End()
 		}
 	}
-	nRand := w.Pick(3000, 50000)
+	nRand := w.Pick(20000, 200000)
 	for i := 0; i < nRand; i++ {
 		id := fmt.Sprintf("rand-%d", i)
 		idx++
